@@ -170,8 +170,18 @@ Section Machine.
   Variable val_int : val -> Z.                  (* integer read of a randint draw *)
 
   Record rss : Type := { rs_seed : Z; rs_st : rng }.
-  Definition rss_new (s : Z) : rss := {| rs_seed := s; rs_st := seed_rng s |}.
-  Definition rss_reseed (r : rss) (s : Z) : rss := rss_new s.
+  (* RandomStateService(seed): self._seed = int_cast(seed); self.random = RandomState(self._seed) *)
+  Definition rss_new (s : Z) : rss :=
+    let sd := rs_init_seed s in {| rs_seed := sd; rs_st := seed_rng (rs_init_state_arg sd) |}.
+  (* the `seed` property *)
+  Definition rss_seed (r : rss) : Z := rs_seed_prop (rs_seed r).
+  (* reseed(seed): self._seed = int_cast(seed); self.random.seed(self._seed).  The stream is
+     restarted only on the straight-line path: a reseed containing a branch or an early return
+     is read as possibly keeping the old state. *)
+  Definition rss_reseed (r : rss) (s : Z) : rss :=
+    if (rs_reseed_nif =? 0) && (rs_reseed_nreturn =? 0)
+    then let sd := rs_reseed_seed s in {| rs_seed := sd; rs_st := seed_rng (rs_reseed_state_arg sd) |}
+    else r.
   Definition rss_draw (r : rss) (q : req) : val * rss :=
     let '(v, st) := draw (rs_st r) q in (v, {| rs_seed := rs_seed r; rs_st := st |}).
 
